@@ -5,7 +5,7 @@ from mc import history
 
 PROPERTY = "C18"
 RULE = (
-    "BFS to depth 3 over histories of fit(D)/transform(D)/fit_transform(D) (3-4 data sets each, one collection holding the same array object several times) on REAL "
+    "BFS to fixpoint (depth 3) and, for 3 estimators, the FULL tree of 4-call histories over a reduced alphabet, over histories of fit(D)/transform(D)/fit_transform(D) (3-4 data sets each, one collection holding the same array object several times) on REAL "
     "estimators: PersistenceImager() / (pixel_size=0.5) / user kernel; PersistenceLandscaper(num_steps=5) "
     "with none / start / stop / both fixed by the user, and (flatten=True, hom_deg=1). Every transition "
     "is compared with a fresh estimator replaying the same history: transform repeatable and state-"
@@ -294,3 +294,10 @@ def run_shard(ctx):
         if f == 0:
             ctx.run_case(_M, {"init": init, "ops": []}, fn=lambda c, cx: run_history(c, cx))
         history.bfs(ctx, _M, [init], ops, depth - 1, run_history, prefix=[first])
+        # full tree (no de-duplication) of 4-call (thorough 5-call) histories over a reduced alphabet:
+        # behaviour that depends on the NUMBER or ORDER of earlier calls cannot hide behind a repeated state
+        if e in (0, 3, 4):
+            keys = ["I1", "I7"] if init["cls"] == "imager" else ["L1", "L2"]
+            red = [[op, k] for op in ("fit", "transform", "fit_transform") for k in keys]
+            if first in red:
+                history.bfs(ctx, _M, [init], red, (3 if ctx.tier == "quick" else 4), run_history, prefix=[first], diff_continuation=False, dedup=False)
